@@ -1936,7 +1936,9 @@ impl<'a, 'b, W: Write> SerializeTupleStruct for TupleSer<'a, 'b, W> {
                         value.serialize(&mut bc)?;
                         self.weak_present = bc.finish()?;
                         if !self.weak_present {
-                            // present == false: emit null and skip field #3
+                            // present == false: emit null and skip field #3.
+                            // As a mapping value, the space after `key:` is still owed.
+                            self.ser.write_space_if_pending()?;
                             if self.ser.at_line_start {
                                 self.ser.write_indent(self.ser.depth)?;
                             }
